@@ -14,7 +14,10 @@ CTXSIZED = ['Bytes(this._params.n)', 'Array(this._params.n, Byte)', 'Padded(this
 PREFIXED = ['Prefixed(Byte, GreedyBytes)', 'PascalString(Byte, "utf8")', 'PrefixedArray(Byte, Int16ub)', 'Prefixed(VarInt, GreedyBytes)',
             'Prefixed(Int16ub, GreedyBytes, includelength=True)', 'Prefixed(Byte, Struct("a"/Byte, "r"/GreedyBytes))',
             'PrefixedArray(VarInt, Byte)', 'Prefixed(Int16ul, GreedyRange(Int16ub))', 'PrefixedArray(Byte, VarInt)', 'PrefixedArray(Byte, Int24ul)',
-            'PrefixedArray(Int16ub, CString("ascii"))']
+            'PrefixedArray(Int16ub, CString("ascii"))',
+            # arrays whose elements are themselves length-prefixed, of different lengths
+            'PrefixedArray(Byte, PascalString(Byte, "utf8"))', 'PrefixedArray(Byte, Prefixed(Byte, GreedyBytes))', 'PrefixedArray(VarInt, PrefixedArray(Byte, Int16ub))',
+            'PrefixedArray(Byte, Prefixed(VarInt, GreedyBytes))', 'PrefixedArray(Byte, Struct("t"/Byte, "v"/Prefixed(Byte, GreedyBytes)))']
 UNSIZABLE = ['VarInt', 'CString("utf8")', 'NullTerminated(GreedyBytes)', 'RepeatUntil(obj_ == 0, Byte)',
              'Struct("k"/Byte, "d"/Bytes(this.k))', 'ZigZag', 'Struct("c"/Byte, "a"/Array(this.c, Int16ub))', 'NullTerminated(GreedyBytes, term=b"\\x00\\x00")']
 TAIL = ['GreedyBytes', 'GreedyRange(Int16ub)', 'GreedyString("utf8")']
@@ -41,6 +44,11 @@ VALS = {
     'PrefixedArray(Byte, VarInt)': lambda g: [g.choice([0, 1, 127, 128, 300, 70000]) for _ in range(g.randint(0, 4))],
     'PrefixedArray(Byte, Int24ul)': lambda g: [g.randrange(2 ** 24) for _ in range(g.randint(0, 3))],
     'PrefixedArray(Int16ub, CString("ascii"))': lambda g: [g.choice(['', 'a', 'xyz']) for _ in range(g.randint(0, 3))],
+    'PrefixedArray(Byte, PascalString(Byte, "utf8"))': lambda g: [g.choice(['', 'a', 'xyz', 'hello w', '\xe9t\xe9']) for _ in range(g.randint(0, 4))],
+    'PrefixedArray(Byte, Prefixed(Byte, GreedyBytes))': lambda g: [G.rand_bytes(g, g.choice([0, 1, 2, 5, 9])) for _ in range(g.randint(0, 4))],
+    'PrefixedArray(VarInt, PrefixedArray(Byte, Int16ub))': lambda g: [[g.randrange(65536) for _ in range(g.randint(0, 3))] for _ in range(g.randint(0, 3))],
+    'PrefixedArray(Byte, Prefixed(VarInt, GreedyBytes))': lambda g: [G.rand_bytes(g, g.choice([0, 1, 3, 130])) for _ in range(g.randint(0, 3))],
+    'PrefixedArray(Byte, Struct("t"/Byte, "v"/Prefixed(Byte, GreedyBytes)))': lambda g: [dict(t=g.randrange(256), v=G.rand_bytes(g, g.randint(0, 4))) for _ in range(g.randint(0, 3))],
     'VarInt': lambda g: g.choice([0, 1, 127, 128, 300, 2 ** 21, g.randrange(2 ** 30)]), 'CString("utf8")': lambda g: G.rand_text(g, 'utf8'),
     'NullTerminated(GreedyBytes)': lambda g: bytes(g.randrange(1, 256) for _ in range(g.randint(0, 4))),
     'RepeatUntil(obj_ == 0, Byte)': lambda g: [g.randrange(1, 256) for _ in range(g.randint(0, 3))] + [0],
